@@ -44,6 +44,9 @@ type valCase struct {
 	// the subject may not depend on what is declared next to it.
 	Siblings []sibling `json:"siblings,omitempty"`
 	Before   int       `json:"before,omitempty"`
+	// InOneof: the subject is an option of a j5s oneof (next to an option "other")
+	// instead of a field of an object; absent then means the other option is set.
+	InOneof bool `json:"in_oneof,omitempty"`
 }
 
 type sibling struct {
@@ -358,8 +361,12 @@ func check(c valCase) (fails []vf.Failure, accepted, rejected int) {
 	if c.Before >= len(c.Siblings) {
 		fields = append(fields, c.Field)
 	}
-	obj := &j5sgen.Object{Name: "Holder", Fields: fields}
-	b := &j5sgen.Bundle{Packages: []*j5sgen.Package{{Name: "rule.check.v1", Files: []*j5sgen.File{{Path: "rule/check/v1/main.j5s", Decls: []*j5sgen.Decl{{Object: obj}}}}}}}
+	decl := &j5sgen.Decl{Object: &j5sgen.Object{Name: "Holder", Fields: fields}}
+	if c.InOneof {
+		fields = []*j5sgen.Field{c.Field, {Name: "other", Type: &j5sgen.Type{Kind: "string"}}}
+		decl = &j5sgen.Decl{Oneof: &j5sgen.Oneof{Name: "Holder", Options: fields}}
+	}
+	b := &j5sgen.Bundle{Packages: []*j5sgen.Package{{Name: "rule.check.v1", Files: []*j5sgen.File{{Path: "rule/check/v1/main.j5s", Decls: []*j5sgen.Decl{decl}}}}}}
 	src := &j5sx.Bundle{Files: b.Render()}
 	var files linker.Files
 	var err error
@@ -393,6 +400,9 @@ func check(c valCase) (fails []vf.Failure, accepted, rejected int) {
 	ruleSig := ruleSignature(c.Field)
 	for _, cd := range c.Cands {
 		msg := dynamicpb.NewMessage(md)
+		if c.InOneof && cd.Absent {
+			msg.Set(md.Fields().ByJSONName("other"), protoreflect.ValueOfString("x"))
+		}
 		for _, sb := range c.Siblings {
 			if sb.Value.Absent {
 				continue
@@ -424,7 +434,14 @@ func check(c valCase) (fails []vf.Failure, accepted, rejected int) {
 				return []vf.Failure{vf.Failf("harness|value", "%v", err)}, 0, 0
 			}
 		}
-		want, why := expected(c.Field, cd)
+		subject := c.Field
+		if c.InOneof {
+			// a oneof member has presence of its own
+			withPresence := *c.Field
+			withPresence.Optional = true
+			subject = &withPresence
+		}
+		want, why := expected(subject, cd)
 		var verr error
 		if f := vf.GuardTimed("Validate", callLimit, func() { verr = validator.Validate(msg) }); f != nil {
 			fails = append(fails, *f)
@@ -885,7 +902,11 @@ func TestRules(t *testing.T) {
 	r.ConfirmFresh()
 	rapid.Check(t, func(t *rapid.T) {
 		c := drawCase(t)
-		drawSiblings(t, &c)
+		if k := c.Field.Type.Kind; k != "array" && k != "map" && !c.Field.Optional && rapid.IntRange(0, 4).Draw(t, "inoneof") == 0 {
+			c.InOneof = true
+		} else {
+			drawSiblings(t, &c)
+		}
 		fails, acc, rej := check(c)
 		cls := []string{"kind:" + ruleSignature(c.Field)}
 		if c.Field.Required {
@@ -896,6 +917,12 @@ func TestRules(t *testing.T) {
 		}
 		if len(c.Siblings) > 0 {
 			cls = append(cls, fmt.Sprintf("siblings:%d", len(c.Siblings)))
+		}
+		if c.InOneof {
+			cls = append(cls, "subject-in-oneof")
+			if c.Field.Required {
+				cls = append(cls, "subject-in-oneof:required")
+			}
 		}
 		if acc > 0 && rej > 0 {
 			cls = append(cls, "both-verdicts")
